@@ -640,7 +640,7 @@ def multi_modules(rng, size):
         m = g.module(name, nass=rng.range(1, 3), ext_refs=refs)
         # type names must be unique across the module set (one C file per type name)
         mods.append((m, imps))
-        exported.append((name, [n for n, _ in m["assigns"]]))
+        exported.append((name, [a[0] for a in m["assigns"] if len(a) == 2]))
     return mods
 
 
